@@ -16,12 +16,13 @@ def parseMtime (s : String) : Option (Option (Int × Nat)) :=
 mutual
 partial def parseNode (ts : List String) : Option (String × Node × List String) :=
   match ts with
-  | "f" :: name :: mode :: mt :: content :: r => do
+  | "f" :: name :: mode :: mt :: ap :: content :: r => do
     let m ← mode.toNat?
     let t ← parseMtime mt
     let _ ← unhex name
+    let a ← unhex ap
     let c ← unhex content
-    pure (name, .file ⟨m, t⟩ c, r)
+    pure (name, .file ⟨m, t⟩ a c, r)
   | "l" :: name :: mt :: target :: r => do
     let t ← parseMtime mt
     let c ← unhex target
@@ -52,7 +53,7 @@ partial def kidsLen : Kids → Nat
   | .nil => 0
   | .cons _ _ r => 1 + kidsLen r
 partial def showNode (name : Str) : Node → List String
-  | .file m c => ["f", hex name, toString m.mode, showMtime m.mtime, hex c]
+  | .file m a c => ["f", hex name, toString m.mode, showMtime m.mtime, hex a, hex c]
   | .link t c => ["l", hex name, showMtime t, hex c]
   | .dir m kids => ["d", hex name, toString m.mode, showMtime m.mtime, toString (kidsLen kids)] ++ showKids kids
 partial def showKids : Kids → List String
@@ -68,7 +69,7 @@ def showCT : CType → String
   | .file => "f"
 
 def showPart (p : Part) : String :=
-  s!"{if p.form then 1 else 0}|{hex p.formName}|{hex p.filename}|{showCT p.ctype}|{hex p.body}"
+  s!"{if p.form then 1 else 0}|{hex p.formName}|{hex p.filename}|{showCT p.ctype}|{hex p.body}|{hex p.absEnc}"
 
 def parseParts : List String → Option (List Part)
   | [] => some []
